@@ -4,6 +4,7 @@ import (
 	"bytes"
 	"context"
 	"encoding/binary"
+	"errors"
 	"fmt"
 	"math/rand"
 	"os"
@@ -37,6 +38,7 @@ type fragState struct {
 	got      chan string
 
 	// fragswarm scenario
+	ffail []*failSwarm
 	fsend []p2p.Swarm[memswarm.Addr]
 	frecv p2p.Swarm[memswarm.Addr]
 	// mbapp scenario
@@ -63,6 +65,22 @@ func (st *fragState) reset() {
 	*st = fragState{}
 	st.ctx, st.cancel = context.WithCancel(context.Background())
 	st.got = make(chan string, 16)
+}
+
+// failSwarm: an inner transport whose Tell refuses the datagram that carries fragment number `fail` of a fragswarm
+// message (a send buffer that is full for a moment, a route that flaps): the other fragments go through
+type failSwarm struct {
+	p2p.Swarm[memswarm.Addr]
+	fail int
+}
+
+func (f *failSwarm) Tell(ctx context.Context, dst memswarm.Addr, v p2p.IOVec) error {
+	if f.fail >= 0 {
+		if _, part, _, _, err := fragswarm.VerifParseMessage(p2p.VecBytes(nil, v)); err == nil && int(part) == f.fail {
+			return errors.New("inner transport refuses this datagram")
+		}
+	}
+	return f.Swarm.Tell(ctx, dst, v)
 }
 
 func (st *fragState) capture(m *memswarm.Message) bool {
@@ -105,8 +123,10 @@ func (st *fragState) apply(op []string, o *hx.Out) {
 			for i := 0; i <= nFragSenders; i++ {
 				in := realm.NewSwarm()
 				st.addrs = append(st.addrs, in.LocalAddr())
-				s := fragswarm.New[memswarm.Addr](in, atoi(op[2]))
+				fw := &failSwarm{Swarm: in, fail: -1}
+				s := fragswarm.New[memswarm.Addr](fw, atoi(op[2]))
 				if i < nFragSenders {
+					st.ffail = append(st.ffail, fw)
 					st.fsend = append(st.fsend, s)
 				} else {
 					st.frecv = s
@@ -128,6 +148,19 @@ func (st *fragState) apply(op []string, o *hx.Out) {
 					return "err-mtu"
 				}
 				return "err-other"
+			}
+			return st.takeCaptured()
+		case "frag-tellfail":
+			// the inner transport refuses fragment number op[3] of this message; the others are sent
+			st.ffail[atoi(op[1])].fail = atoi(op[3])
+			err := st.fsend[atoi(op[1])].Tell(st.ctx, st.addrs[nFragSenders], p2p.IOVec{hx.UnHex(op[2])})
+			st.ffail[atoi(op[1])].fail = -1
+			if err != nil && p2p.IsErrMTUExceeded(err) {
+				st.takeCaptured()
+				return "err-mtu"
+			}
+			if err != nil {
+				return "err " + st.takeCaptured()
 			}
 			return st.takeCaptured()
 		case "frag-recv":
@@ -320,7 +353,13 @@ func fragScenario(r *rand.Rand, kind string, honest bool, exec func(op string) s
 		src := r.Intn(nFragSenders)
 		size := fragSizes(r, inner-over, mtu)
 		payload := hx.Bytes(r, size)
-		res := exec(fmt.Sprintf("%s-tell %d %s", kind, src, hx.Hex(payload)))
+		var res string
+		if kind == "frag" && r.Intn(5) == 0 {
+			res = exec(fmt.Sprintf("frag-tellfail %d %s %d", src, hx.Hex(payload), hx.Pick(r, 0, 0, 1, 2, 7)))
+			res = strings.TrimPrefix(res, "err ")
+		} else {
+			res = exec(fmt.Sprintf("%s-tell %d %s", kind, src, hx.Hex(payload)))
+		}
 		if strings.HasPrefix(res, "pkts ") {
 			told = append(told, payload)
 			toldSrc = append(toldSrc, src)
